@@ -331,13 +331,46 @@ type c19Gen struct {
 	r *vRand
 }
 
+// the awkward address classes every address-valued field is also generated with: unspecified,
+// all-ones, loopback, link-local and (IPv6) IPv4-mapped addresses
+func c19Awkward(r *vRand, six bool) netip.Addr {
+	if !six {
+		return netip.AddrFrom4([][4]byte{{0, 0, 0, 0}, {255, 255, 255, 255}, {127, 0, 0, 1}, {169, 254, byte(r.next()), byte(r.next())}, {224, 0, 0, 5}}[r.intn(5)])
+	}
+	a := [16]byte{}
+	switch r.intn(6) {
+	case 0: // ::
+	case 1: // ::ffff:a.b.c.d (IPv4-mapped)
+		a[10], a[11] = 0xff, 0xff
+		binary.BigEndian.PutUint32(a[12:], r.u32()|1<<24)
+	case 2: // ::ffff:0.0.0.0
+		a[10], a[11] = 0xff, 0xff
+	case 3: // link-local
+		a[0], a[1] = 0xfe, 0x80
+		binary.BigEndian.PutUint64(a[8:], r.next())
+	case 4:
+		for i := range a {
+			a[i] = 0xff
+		}
+	case 5:
+		a[15] = 1
+	}
+	return netip.AddrFrom16(a)
+}
+
 func (g *c19Gen) v4() netip.Addr {
+	if g.r.chance(20) {
+		return c19Awkward(g.r, false)
+	}
 	var a [4]byte
 	binary.BigEndian.PutUint32(a[:], g.r.u32())
 	return netip.AddrFrom4(a)
 }
 
 func (g *c19Gen) v6() netip.Addr {
+	if g.r.chance(25) {
+		return c19Awkward(g.r, true)
+	}
 	var a [16]byte
 	binary.BigEndian.PutUint64(a[:], g.r.next()|1<<61)
 	binary.BigEndian.PutUint64(a[8:], g.r.next())
@@ -441,9 +474,9 @@ func (g *c19Gen) record(kind int) (*MRTMessage, string, error) {
 			nlri, _ = bgp.NewLabeledVPNIPAddrPrefix(netip.PrefixFrom(g.v4(), 8+r.intn(25)).Masked(), *bgp.NewMPLSLabelStack(uint32(16+r.intn(1000))),
 				bgp.NewRouteDistinguisherTwoOctetAS(uint16(r.next()), r.u32()))
 		case v6:
-			nlri, _ = bgp.NewIPAddrPrefix(netip.PrefixFrom(g.v6(), r.intn(129)).Masked())
+			nlri, _ = bgp.NewIPAddrPrefix(netip.PrefixFrom(g.v6(), r.pick(128, 128, 96, 0, r.intn(129), r.intn(129), r.intn(129))).Masked())
 		default:
-			nlri, _ = bgp.NewIPAddrPrefix(netip.PrefixFrom(g.v4(), r.intn(33)).Masked())
+			nlri, _ = bgp.NewIPAddrPrefix(netip.PrefixFrom(g.v4(), r.pick(32, 32, 0, r.intn(33), r.intn(33), r.intn(33))).Masked())
 		}
 		entries := []*RibEntry{}
 		for k := 1 + r.intn(3); k > 0; k-- {
